@@ -43,6 +43,8 @@ structure OSt where
   running : List (Nat × Nat × Nat) := []
   widOf : List (Nat × Nat) := []
   requested : Nat
+  /-- resize requests queued behind a busy handler, in order -/
+  pendingReq : List Nat := []
   disc : Option (Nat × Mode)
   /-- the limit was (re)set in the current step -/
   discChanged : Bool := false
@@ -110,7 +112,13 @@ def oStep (s : OSt) : Ev → OSt
              stale := s.stale || s.unprocessed.contains aid }
   | .requested n =>
     let s := { s with stepOps := s.stepOps + 1 }
-    if n == 0 then s else { s with requested := min n GLOBAL_WORKER_POOL_MAXIMUM }
+    -- a request sent to a busy factory takes effect when its turn comes
+    if s.blocked then { s with pendingReq := s.pendingReq ++ [n] }
+    else if n == 0 then s else { s with requested := min n GLOBAL_WORKER_POOL_MAXIMUM }
+  | .released n =>
+    let s := { s with stepOps := s.stepOps + 1 }
+    let apply := fun (r : Nat) (n : Nat) => if n == 0 then r else min n GLOBAL_WORKER_POOL_MAXIMUM
+    { s with requested := s.pendingReq.foldl apply (apply s.requested n), pendingReq := [] }
   | .settings d => { s with disc := d, discChanged := true, stepOps := s.stepOps + 1 }
   | .drainReq => { s with drainReq := true, stepOps := s.stepOps + 1 }
   | .build wid aid => { s with widOf := s.widOf ++ [(aid, wid)] }
